@@ -226,6 +226,7 @@ def run(ctx):
         lines.append(rc.report_line(peer, False, imp['banner']))
         expect.append(('report', imp, ('repeated-unknown', how)))
     whole_audit_neighbours(ctx, fail, cov)
+    launch_modes(ctx, fail, cov)
     finding_isolation(ctx, fail, cov)
     model = ctx.driver(lines) if ctx.driver_ok else []
     for line, m, (kind, want, what) in zip(lines, model, expect):
@@ -270,15 +271,31 @@ def _hk_pool(r):
     return pool, {'rsa_bits': bits, 'ca_bits': cab, 'ca_of_rsa_cert': ca1, 'ca_of_ed25519_cert': ca2, 'ca_of_ecdsa_certs': ca3}
 
 
-def _audit_entries(keys, kexs, blobs, gex_bits):
-    """real main() (-j and text) on a scripted server; returns {category: {name: [json entry, text lines]}} for key and kex"""
+def _audit_entries(keys, kexs, blobs, gex_bits, launch=()):
+    """real main() (-j and text) on a scripted server; returns {category: {name: [json entry, text lines]}} for key and kex.
+    `launch`: () = the target named on the command line; ('-T', n) = named in a targets file, scanned with n threads"""
     import re as _re
     import fakenet as fn
+    if launch:
+        import os
+        import tempfile
+        fd, path = tempfile.mkstemp(prefix='verif_targets_')
+        os.write(fd, b'10.3.0.1\n')
+        os.close(fd)
+        target = ['-T', path, '--threads', str(launch[1])]
+    else:
+        path, target = None, ['10.3.0.1']
     srv = fn.simple_server(kex=tuple(kexs) + (pg.STRICT_S, pg.STRICT_C), key=tuple(keys), enc=('aes256-ctr',), mac=('hmac-sha2-256',), banner=b'SSH-2.0-OpenSSH_8.9',
                            hostkeys={k: blobs[k] for k in keys if k in blobs}, gex=(lambda mn, pf, mx: gex_bits if (gex_bits and mn <= gex_bits <= mx) else None))
-    code, jtext = fn.run_main(['-n', '--skip-rate-test', '-j', '10.3.0.1'], fn.FakeNet({'10.3.0.1': srv}))
-    doc = json.loads(jtext)
-    code2, text = fn.run_main(['-n', '--skip-rate-test', '10.3.0.1'], fn.FakeNet({'10.3.0.1': srv}))
+    try:
+        code, jtext = fn.run_main(['-n', '--skip-rate-test', '-j'] + target, fn.FakeNet({'10.3.0.1': srv}))
+        doc = json.loads(jtext)
+        if isinstance(doc, list):       # a targets-file scan prints an array of reports
+            doc = doc[0]
+        code2, text = fn.run_main(['-n', '--skip-rate-test'] + target, fn.FakeNet({'10.3.0.1': srv}))
+    finally:
+        if path:
+            os.unlink(path)
     res = {}
     for c in ('key', 'kex'):
         res[c] = {}
@@ -334,6 +351,35 @@ def whole_audit_neighbours(ctx, fail, cov):
                 if got != ref:
                     fail('entry_changes_with_neighbours', {'whole_audit': True, 'cat': c, 'name': n_, 'keys': keys, 'kexs': kexs, 'meta': meta, 'gex_bits': gex_bits},
                          {'json': got[0], 'text': got[1][:4]}, {'json': ref[0], 'text': ref[1][:4]})
+
+
+def launch_modes(ctx, fail, cov):
+    """The same server audited when it is named on the command line and when it is named in a targets file (one line; 1 and 4 worker threads):
+    the entries of its host keys and key exchanges — names, measured sizes, notes, in JSON and in text — are the same.  The servers earn
+    measured-size notes (small RSA keys and CA keys, small group-exchange moduli).  (Seed C03-12: in targets-file mode the probes ran on a
+    helper thread and wrote their notes into that thread's copy of the database.)"""
+    r = ctx.rng
+    for k in range(ctx.scale(4, 40)):
+        pool, meta = _hk_pool(r)
+        if k == 0:
+            keys, gex_bits, kexs = ['ssh-rsa', 'rsa-sha2-512', 'ssh-ed25519'], 1024, ['curve25519-sha256', 'diffie-hellman-group-exchange-sha256']
+            pool = dict(pool)
+            import fakenet as fn
+            pool['ssh-rsa'] = pool['rsa-sha2-512'] = fn.rsa_blob(1024)
+        else:
+            keys = r.sample(sorted(pool), r.randint(2, 4))
+            gex_bits = r.choice([None, 1024, 2048, 3072])
+            kexs = ['curve25519-sha256'] + r.sample(['diffie-hellman-group-exchange-sha256', 'diffie-hellman-group-exchange-sha1', 'diffie-hellman-group14-sha256'], r.randint(1, 2))
+        ref = _audit_entries(keys, kexs, pool, gex_bits)
+        for launch in (('-T', 1), ('-T', 4)):
+            got = _audit_entries(keys, kexs, pool, gex_bits, launch=launch)
+            cov.add(('launch-mode', tuple(keys), tuple(kexs), gex_bits, launch), True, tags=['launch-modes'])
+            for c in ('key', 'kex'):
+                for n_ in ref[c]:
+                    if got[c].get(n_) != ref[c][n_]:
+                        g = got[c].get(n_)
+                        fail('entry_changes_with_launch_mode', {'launch_modes': True, 'cat': c, 'name': n_, 'keys': keys, 'kexs': kexs, 'meta': meta, 'gex_bits': gex_bits, 'launch': list(launch)},
+                             {'json': g[0], 'text': g[1][:4]} if g else None, {'json': ref[c][n_][0], 'text': ref[c][n_][1][:4]})
 
 
 def finding_isolation(ctx, fail, cov):
